@@ -256,7 +256,18 @@ impl<'a, D: Dataset + ?Sized> ExecState<'a, D> {
                 let graph_matcher = vec![Some(ArcTerm::Iri(IriRef::new_unchecked(
                     self.stash.copy_str(nn.as_str()),
                 )))];
-                self.select(inner, &graph_matcher, binding)
+                let mut bindings = self.select(inner, &graph_matcher, binding)?;
+                if !self
+                    .config
+                    .named_graphs
+                    .iter()
+                    .any(|[name]| name == &graph_matcher[0])
+                {
+                    // not a named graph of the dataset: no solution at all,
+                    // even for an inner pattern that matches the empty graph (e.g. `{}`)
+                    bindings.iter = Box::new(std::iter::empty());
+                }
+                Ok(bindings)
             }
             NamedNodePattern::Variable(var) => {
                 if let Some(name) = binding.and_then(|b| b.v.get(var.as_str())) {
@@ -272,7 +283,10 @@ impl<'a, D: Dataset + ?Sized> ExecState<'a, D> {
                         .collect::<Result<BTreeSet<_>, _>>()
                         .map_err(SparqlWrapperError::Dataset)?;
                     if graph_names.is_empty() {
-                        self.select(inner, &[], binding)
+                        // no named graph: no solution at all,
+                        // even for an inner pattern that matches the empty graph (e.g. `{}`)
+                        let iter = Box::new(std::iter::empty());
+                        Ok(Bindings { variables, iter })
                     } else {
                         self.graph_rec(var.as_str(), graph_names.into_iter(), inner, binding)
                     }
